@@ -58,19 +58,22 @@ type Case struct {
 	PkKind   string     `json:"pkkind"` // int | str
 	Rows     [][]string `json:"rows"`   // initial database rows [pk,u,v] (texts)
 	Ops      [][]any    `json:"ops"`
-	Keys     []string   `json:"keys"`    // cache keys whose node is to be reported
-	Hole     string     `json:"hole"`    // cache.notFoundPlaceholder as extracted from the sources
-	RType    string     `json:"rtype"`   // node | cluster (redis.ClusterType: per-key DEL)
-	Conn     string     `json:"conn"`    // conf (sqlc.NewConn) | node (sqlc.NewNodeConn, 1 node)
-	Api      int        `json:"api"`     // 0: ...Ctx methods, 1: context-free wrappers, 2: alternating
-	NfWrap   bool       `json:"nfwrap"`  // the database reports "no row" as a %w-wrapped sqlx.ErrNotFound
-	Inst2    *Options2  `json:"inst2"`   // a second CachedConn / cache.Cache (own options) over the same nodes: ops "<kind>@1"
-	Gap      int64      `json:"gap"`     // sqlc.cacheSafeGapBetweenIndexAndPrimary (ns) as extracted from the sources
-	Layer    string     `json:"layer"`   // sqlc (default) | cache: cache.Cache driven directly (context-free methods)
-	Readers  int        `json:"readers"` // kind conc*
-	Present  bool       `json:"present"` // kind conc*
-	Pk       string     `json:"pk"`      // kind conc*: primary key of the row
-	Mutate   bool       `json:"mutate"`  // kind conc*: the leader overwrites its destination as soon as its read returns, and only
+	Keys     []string   `json:"keys"`   // cache keys whose node is to be reported
+	Hole     string     `json:"hole"`   // cache.notFoundPlaceholder as extracted from the sources
+	RType    string     `json:"rtype"`  // node | cluster (redis.ClusterType: per-key DEL)
+	Conn     string     `json:"conn"`   // conf (sqlc.NewConn) | node (sqlc.NewNodeConn, 1 node)
+	Api      int        `json:"api"`    // 0: ...Ctx methods, 1: context-free wrappers, 2: alternating
+	NfWrap   bool       `json:"nfwrap"` // the database reports "no row" as a %w-wrapped sqlx.ErrNotFound
+	Worlds   []Case     `json:"worlds"` // further independent worlds (own database rows, own Redis servers, own options) in the
+	//                                      same process, using the same key strings; ops "<kind>#<w>" (w >= 1) are issued there;
+	//                                      "tick" (the one cleaner) and "adv" are process-wide
+	Inst2   *Options2 `json:"inst2"`   // a second CachedConn / cache.Cache (own options) over the same nodes: ops "<kind>@1"
+	Gap     int64     `json:"gap"`     // sqlc.cacheSafeGapBetweenIndexAndPrimary (ns) as extracted from the sources
+	Layer   string    `json:"layer"`   // sqlc (default) | cache: cache.Cache driven directly (context-free methods)
+	Readers int       `json:"readers"` // kind conc*
+	Present bool      `json:"present"` // kind conc*
+	Pk      string    `json:"pk"`      // kind conc*: primary key of the row
+	Mutate  bool      `json:"mutate"`  // kind conc*: the leader overwrites its destination as soon as its read returns, and only
 	//                                      then do the readers that shared its flight get to consume the shared result
 	Ctx string `json:"ctx"` // kind conc*: "" (every reader's context lives) | leadercancel | leaderdeadline
 	//                                      (the LEADER's context dies while its query is in progress, the followers' live) |
@@ -95,22 +98,24 @@ type Entry struct {
 }
 
 type OpObs struct {
-	R    string   `json:"r"` // ok | row | nf | dberr | cerr
-	Pk   string   `json:"pk"`
-	U    string   `json:"u"`
-	V    string   `json:"v"`
-	QI   int      `json:"qi"`   // index queries run by this op
-	QP   int      `json:"qp"`   // primary queries run by this op
-	Seen []string `json:"seen"` // "<Go type>|<fmt %v>" of every primary key handed to keyer / primaryQuery
-	Dump []Entry  `json:"dump"`
+	R    string    `json:"r"` // ok | row | nf | dberr | cerr
+	Pk   string    `json:"pk"`
+	U    string    `json:"u"`
+	V    string    `json:"v"`
+	QI   int       `json:"qi"`             // index queries run by this op
+	QP   int       `json:"qp"`             // primary queries run by this op
+	Seen []string  `json:"seen"`           // "<Go type>|<fmt %v>" of every primary key handed to keyer / primaryQuery
+	Dump []Entry   `json:"dump"`           // world 0
+	More [][]Entry `json:"more,omitempty"` // worlds 1.. (cases with worlds)
 }
 
 type Out struct {
-	ID     int            `json:"id"`
-	NodeOf map[string]int `json:"nodeof"`
-	Obs    []OpObs        `json:"obs"`
-	Conc   *ConcObs       `json:"conc,omitempty"`
-	Err    string         `json:"err,omitempty"`
+	ID      int              `json:"id"`
+	NodeOf  map[string]int   `json:"nodeof"`
+	NodeOfs []map[string]int `json:"nodeofs,omitempty"` // worlds 1..
+	Obs     []OpObs          `json:"obs"`
+	Conc    *ConcObs         `json:"conc,omitempty"`
+	Err     string           `json:"err,omitempty"`
 }
 
 type ConcObs struct {
@@ -394,18 +399,34 @@ type ticker struct{ c chan time.Time }
 func (t *ticker) Chan() <-chan time.Time { return t.c }
 func (t *ticker) Stop()                  {}
 
+// NS servers: world w (an independent database + its own Redis nodes, all in this one process and
+// therefore sharing go-zero's process-wide machinery: the cleaner's timing wheel, sqlc's single
+// flight and statistics) owns servers 2w and 2w+1; [base] is the first server of the world the
+// current operation belongs to.
+const NS = 6
+
 var (
-	servers  [2]*miniredis.Miniredis
-	padders  [2]*redis.Redis
-	cpadders [2]*redis.Redis
+	servers  [NS]*miniredis.Miniredis
+	padders  [NS]*redis.Redis
+	cpadders [NS]*redis.Redis
 	tk       = &ticker{c: make(chan time.Time)}
 	wheel    *collection.TimingWheel
-	faulted  [2]bool
-	closed   [2]bool // connection loss (miniredis Close / Restart)
-	lostOps  [2]int
+	faulted  [NS]bool
+	closed   [NS]bool // connection loss (miniredis Close / Restart)
+	lostOps  [NS]int
+	base     int
 	hole     = "*"
 	rtype    = redis.NodeType
 )
+
+func anyDown() bool {
+	for n := 0; n < NS; n++ {
+		if faulted[n] || closed[n] {
+			return true
+		}
+	}
+	return false
+}
 
 const sentinel = "verif-c06-sentinel"
 
@@ -443,7 +464,7 @@ func padder(n int) *redis.Redis {
 // from tripping by following every operation run under an injected outage with
 // accepted commands (the outage is lifted for them and put back).
 func pad() {
-	for n := 0; n < 2; n++ {
+	for n := 0; n < NS; n++ {
 		if closed[n] {
 			lostOps[n]++
 			continue
@@ -531,7 +552,7 @@ func classifyValue(k, val string, e *Entry) {
 func dump(nodes int) []Entry {
 	res := []Entry{}
 	for n := 0; n < nodes; n++ {
-		m := servers[n]
+		m := servers[base+n]
 		for _, k := range m.Keys() {
 			val, err := m.Get(k)
 			e := Entry{K: k, Node: n, TTL: int64(m.TTL(k) / time.Millisecond)}
@@ -570,12 +591,12 @@ func newConn(c Case) sqlc.CachedConn {
 		if rtype == redis.ClusterType {
 			ro = append(ro, redis.Cluster())
 		}
-		return sqlc.NewNodeConn(nil, redis.New(servers[0].Addr(), ro...), opts...)
+		return sqlc.NewNodeConn(nil, redis.New(servers[base].Addr(), ro...), opts...)
 	}
 	var conf cache.CacheConf
 	for n := 0; n < c.Nodes; n++ {
 		conf = append(conf, cache.NodeConf{
-			RedisConf: redis.RedisConf{Host: servers[n].Addr(), Type: rtype},
+			RedisConf: redis.RedisConf{Host: servers[base+n].Addr(), Type: rtype},
 			Weight:    100,
 		})
 	}
@@ -588,7 +609,7 @@ func newCache(c Case) cache.Cache {
 	var conf cache.CacheConf
 	for n := 0; n < c.Nodes; n++ {
 		conf = append(conf, cache.NodeConf{
-			RedisConf: redis.RedisConf{Host: servers[n].Addr(), Type: rtype},
+			RedisConf: redis.RedisConf{Host: servers[base+n].Addr(), Type: rtype},
 			Weight:    100,
 		})
 	}
@@ -637,7 +658,8 @@ func reopen(n int) {
 }
 
 func reset() {
-	for n := 0; n < 2; n++ {
+	base = 0
+	for n := 0; n < NS; n++ {
 		reopen(n)
 		servers[n].SetError("")
 		servers[n].FlushAll()
@@ -649,7 +671,7 @@ func reset() {
 
 var nodeCache = map[string]int{}
 
-// which server a key lives on (the consistent hash is C15's; here it is observed)
+// which server of its world a key lives on (the consistent hash is C15's; here it is observed)
 func probe(cc sqlc.CachedConn, nodes int, keys []string) map[string]int {
 	res := map[string]int{}
 	wrote := false
@@ -658,22 +680,23 @@ func probe(cc sqlc.CachedConn, nodes int, keys []string) map[string]int {
 			res[k] = 0
 			continue
 		}
-		if n, ok := nodeCache[k]; ok {
+		ck := strconv.Itoa(base) + "/" + k
+		if n, ok := nodeCache[ck]; ok {
 			res[k] = n
 			continue
 		}
 		cc.SetCacheWithExpire(k, 1, time.Hour)
 		wrote = true
 		for n := 0; n < nodes; n++ {
-			if servers[n].Exists(k) {
+			if servers[base+n].Exists(k) {
 				res[k] = n
-				nodeCache[k] = n
+				nodeCache[ck] = n
 			}
 		}
 	}
 	if wrote {
 		for n := 0; n < 2; n++ {
-			servers[n].FlushAll()
+			servers[base+n].FlushAll()
 		}
 	}
 	return res
@@ -704,10 +727,23 @@ func setup(c Case) {
 	}
 }
 
-func runSeq(c Case) Out {
-	out := Out{ID: c.ID}
-	setup(c)
-	reset()
+// one world: its database, its connections (first / second instance, sqlc / cache layer)
+type world struct {
+	base     int
+	nodes    int
+	db       *fakeDB
+	cc1, cc2 sqlc.CachedConn
+	ch1, ch2 cache.Cache
+	nodeOf   map[string]int
+}
+
+func newWorld(c Case, w int, keys []string) *world {
+	base = 2 * w
+	wd := &world{base: base, nodes: c.Nodes}
+	if wd.nodes < 1 {
+		wd.nodes = 1
+	}
+	c.Nodes = wd.nodes
 	db := &fakeDB{rows: map[string]Row{}, mid: -1, leader: -1, errv: errDB, nf: sqlx.ErrNotFound}
 	if c.NfWrap {
 		db.nf = errNotFoundWrapped
@@ -715,47 +751,77 @@ func runSeq(c Case) Out {
 	for _, r := range c.Rows {
 		db.rows[r[0]] = Row{r[0], i64(r[1]), i64(r[2])}
 	}
-	cc1 := newConn(c)
-	out.NodeOf = probe(cc1, c.Nodes, c.Keys)
+	wd.db = db
+	wd.cc1 = newConn(c)
+	wd.nodeOf = probe(wd.cc1, c.Nodes, keys)
 	if c.Api == 2 {
 		// the connection bound to a session shares the cache (the session is the database handle,
 		// which the harness's callbacks never use)
-		cc1 = cc1.WithSession(nil)
+		wd.cc1 = wd.cc1.WithSession(nil)
 	}
-	var ch1 cache.Cache
 	if c.Layer == "cache" {
-		ch1 = newCache(c)
+		wd.ch1 = newCache(c)
 	}
 	// a second instance with its own options over the same nodes (and, as in go-zero, the same
 	// process-wide single flight and statistics)
-	cc2, ch2 := cc1, ch1
+	wd.cc2, wd.ch2 = wd.cc1, wd.ch1
 	if c.Inst2 != nil {
 		c2 := c
 		c2.Expiry, c2.NfExpiry, c2.ExpOpt, c2.NfOpt = c.Inst2.Expiry, c.Inst2.NfExpiry, c.Inst2.ExpOpt, c.Inst2.NfOpt
-		cc2 = newConn(c2)
+		wd.cc2 = newConn(c2)
 		if c.Layer == "cache" {
-			ch2 = newCache(c2)
+			wd.ch2 = newCache(c2)
 		}
+	}
+	return wd
+}
+
+func runSeq(c Case) Out {
+	out := Out{ID: c.ID}
+	setup(c)
+	reset()
+	if len(c.Worlds) > NS/2-1 {
+		out.Err = "too many worlds"
+		return out
+	}
+	worlds := []*world{newWorld(c, 0, c.Keys)}
+	out.NodeOf = worlds[0].nodeOf
+	for i, wc := range c.Worlds {
+		// same table kind, Redis type, API and layer as world 0; own rows, options, node count
+		wc.PkKind, wc.RType, wc.Api, wc.Layer, wc.NfWrap = c.PkKind, c.RType, c.Api, c.Layer, c.NfWrap
+		worlds = append(worlds, newWorld(wc, i+1, c.Keys))
+		out.NodeOfs = append(out.NodeOfs, worlds[i+1].nodeOf)
 	}
 	delFailed := false
 	for i, op := range c.Ops {
-		db.qi, db.qp, db.seen = 0, 0, nil
 		o := OpObs{}
 		row := newTarget()
 		var err error
 		isRead := false
 		plain := c.Api == 1 || (c.Api == 2 && i%2 == 0)
 		kind := op[0].(string)
-		cc, ch := cc1, ch1
+		wd := worlds[0]
+		if j := strings.IndexByte(kind, '#'); j >= 0 {
+			w, e := strconv.Atoi(kind[j+1:])
+			if e != nil || w < 0 || w >= len(worlds) {
+				out.Err = "bad world in op " + kind
+				return out
+			}
+			wd, kind = worlds[w], kind[:j]
+		}
+		base = wd.base
+		db := wd.db
+		db.qi, db.qp, db.seen = 0, 0, nil
+		cc, ch := wd.cc1, wd.ch1
 		if strings.HasSuffix(kind, "@1") {
 			kind = kind[:len(kind)-2]
-			cc, ch = cc2, ch2
+			cc, ch = wd.cc2, wd.ch2
 		}
 		// every operation runs under its own context, cancelled when the operation returns (as a
 		// request context is): nothing that outlives the operation may depend on it
 		ctx, cancel := context.WithCancel(context.Background())
 		if kind == "takemid" || kind == "qrimid" {
-			db.mid = num(op[2])
+			db.mid = base + num(op[2])
 			kind = kind[:len(kind)-3]
 		}
 		if ch != nil {
@@ -861,11 +927,11 @@ func runSeq(c Case) Out {
 		case "poke":
 			// the store is written behind the cache's back with something that is not a row
 			k := str(op[1])
-			n := out.NodeOf[k]
+			n := base + wd.nodeOf[k]
 			servers[n].Set(k, str(op[2]))
 			servers[n].SetTTL(k, time.Duration(num(op[3]))*time.Second)
 		case "adv":
-			for n := 0; n < 2; n++ {
+			for n := 0; n < NS; n++ {
 				servers[n].FastForward(time.Duration(num(op[1])) * time.Millisecond)
 			}
 		case "dbfault":
@@ -875,7 +941,7 @@ func runSeq(c Case) Out {
 				db.errv = dbErrs[num(op[2])%len(dbErrs)]
 			}
 		case "cclose":
-			n := num(op[1])
+			n := base + num(op[1])
 			if num(op[2]) != 0 {
 				if !closed[n] {
 					servers[n].Close()
@@ -885,7 +951,7 @@ func runSeq(c Case) Out {
 				reopen(n)
 			}
 		case "cfault":
-			n := num(op[1])
+			n := base + num(op[1])
 			faulted[n] = num(op[2]) != 0
 			if faulted[n] {
 				servers[n].SetError("ERR verif outage")
@@ -916,7 +982,7 @@ func runSeq(c Case) Out {
 		switch kind {
 		case "exec", "del", "cache:exec", "cache:del":
 			// AddCleanTask hands the timer to the wheel's loop synchronously (unbuffered channel)
-			if faulted[0] || faulted[1] || closed[0] || closed[1] {
+			if anyDown() {
 				delFailed = true
 			}
 		}
@@ -928,7 +994,13 @@ func runSeq(c Case) Out {
 		}
 		o.QI, o.QP = db.qi, db.qp
 		o.Seen = append([]string{}, db.seen...)
-		o.Dump = dump(c.Nodes)
+		base = 0
+		o.Dump = dump(worlds[0].nodes)
+		for _, x := range worlds[1:] {
+			base = x.base
+			o.More = append(o.More, dump(x.nodes))
+		}
+		base = 0
 		out.Obs = append(out.Obs, o)
 	}
 	return out
@@ -1029,7 +1101,7 @@ func runConc(c Case) Out {
 		// the same cache, built with a barrier of ours (public API: cache.New + sqlc.NewConnWithCache)
 		var conf cache.CacheConf
 		for n := 0; n < c.Nodes; n++ {
-			conf = append(conf, cache.NodeConf{RedisConf: redis.RedisConf{Host: servers[n].Addr(), Type: rtype}, Weight: 100})
+			conf = append(conf, cache.NodeConf{RedisConf: redis.RedisConf{Host: servers[base+n].Addr(), Type: rtype}, Weight: 100})
 		}
 		cc = sqlc.NewConnWithCache(nil, cache.New(conf, hf, cache.NewStat("verif"), sql.ErrNoRows, options(c)...))
 	}
@@ -1156,7 +1228,7 @@ func main() {
 	hx.ReadCases(&cases)
 	w := hx.NewWriter()
 	defer w.Close()
-	for n := 0; n < 2; n++ {
+	for n := 0; n < NS; n++ {
 		m, err := miniredis.Run()
 		if err != nil {
 			hx.Fatal("miniredis: %v", err)
